@@ -35,7 +35,8 @@ def required_counters(tier):
     return {'judged:centre': 200, 'judged:boundary-probe': 1000, 'judged:length-vs-scale': 300, 'judged:class': 200,
             'lane:CircleSkyRegion': 10, 'lane:EllipseSkyRegion': 10, 'lane:RectangleSkyRegion': 10, 'lane:CircleAnnulusSkyRegion': 10,
             'lane:EllipseAnnulusSkyRegion': 10, 'lane:RectangleAnnulusSkyRegion': 10, 'region-in-other-frame': 30,
-            'centre-exactly-on-equator': 20, 'annulus-hole-with-equal-axes': 20, 'centre-exactly-at-crval': 20, 'centre-with-distance': 20}
+            'centre-exactly-on-equator': 20, 'annulus-hole-with-equal-axes': 20, 'centre-exactly-at-crval': 20, 'centre-with-distance': 20,
+            'judged:length-vs-local-scale': 300, 'wcs-given-as-sliced-cube-plane': 20}
 
 
 CLASSES = ['CircleSkyRegion', 'EllipseSkyRegion', 'RectangleSkyRegion', 'CircleAnnulusSkyRegion', 'EllipseAnnulusSkyRegion',
@@ -123,7 +124,21 @@ def run_case(case, obs):
             iw, ih = f * width, 0.5 * f * height
         reg = cls(centre, iw, width, ih, height, angle)
         shells = [('inner', iw / 2, ih / 2), ('outer', width / 2, height / 2)]
-    pix = reg.to_pixel(w)
+    w_arg = w
+    if case['rs'] % 11 == 3:
+        # the same celestial plane as other libraries hand it out: the first channel of a (lon, lat, channel) cube, sliced - an
+        # undistorted celestial WCS object of the shared WCS interface, but not an astropy.wcs.WCS instance
+        from astropy.wcs.wcsapi import SlicedLowLevelWCS, HighLevelWCSWrapper
+        w_arg = HighLevelWCSWrapper(SlicedLowLevelWCS(w.sub([1, 2, 0]), 0))
+        obs.count('wcs-given-as-sliced-cube-plane')
+    try:
+        pix = reg.to_pixel(w_arg)
+    except Exception as exc:
+        if w_arg is w:
+            raise
+        obs.violation('to_pixel-raised-for-sliced-cube-plane', f'{name}.to_pixel raised {type(exc).__name__}: {exc} for the celestial plane of a cube '
+                      '(HighLevelWCSWrapper(SlicedLowLevelWCS(cube, 0))); the same plane as a plain WCS converts')
+        return
     obs.check(type(pix).__name__ == name.replace('Sky', 'Pixel'), 'to_pixel-wrong-class', f'{name}.to_pixel gave {type(pix).__name__}', 'class')
     # centre
     ex, ey = w.world_to_pixel(centre)
@@ -137,6 +152,22 @@ def run_case(case, obs):
     obs.note_max('max:tolerance', tol)
     circular = name.startswith('Circle')
     th = None if circular else float(pix.angle.to_value(u.rad))
+    # "the local pixel scale": pixels per arcsecond AT THE CENTRE, measured with astropy alone in 16 directions (north and south
+    # among them).  Away from the reference point it depends a little on the direction; every length must be the angular size
+    # times a value inside the measured range - whatever direction a conversion uses, a scale from elsewhere in the image is not local
+    ks = []
+    for kdir in range(16):
+        q = centre.directional_offset_by(22.5 * kdir * u.deg, 1 * u.arcsec)
+        qx, qy = w.world_to_pixel(q)
+        ks.append(math.hypot(float(qx) - cx, float(qy) - cy))
+    kmin, kmax = min(ks), max(ks)
+    obs.note_max('max:local-scale-anisotropy', kmax / kmin - 1)
+
+    def local(nm, got, ang_size):
+        k = got / float(ang_size.to_value(u.arcsec))
+        obs.check(kmin * (1 - 2e-6) <= k <= kmax * (1 + 2e-6), 'length-not-angular-size-over-local-scale',
+                  f'{name} {nm}: pixel length {got!r} for {ang_size} is {k!r} px/arcsec; the pixel scale at the centre is between {kmin!r} and {kmax!r} px/arcsec '
+                  f'({math.degrees(rho):.3g} deg from the reference point)', 'length-vs-local-scale')
     for label, sa, sb in shells:
         if circular:
             r_pix = float(getattr(pix, {'radius': 'radius', 'inner': 'inner_radius', 'outer': 'outer_radius'}[label]))
@@ -148,6 +179,7 @@ def run_case(case, obs):
                 obs.note_max('max:probe-deviation/tol', abs(r - 1) / tol)
                 obs.check(abs(r - 1) <= tol, 'circle-radius-not-angular-size-over-scale',
                           f'{name} {label}: sky point at the angular radius (PA {pa}) lands at {r:.6f} pixel radii (tolerance {tol:.3g})', 'boundary-probe')
+            local(label, r_pix, sa)
             ps = float(np.mean(proj_plane_pixel_scales(w)))
             exp = float(sa.to_value(u.deg)) / ps
             obs.check(abs(r_pix / exp - 1) <= tol, 'length-not-angular-size-over-scale',
@@ -177,6 +209,7 @@ def run_case(case, obs):
                           'boundary-probe')
         ps = float(np.mean(proj_plane_pixel_scales(w)))
         for nm, got, ang_size in (('width', wp, 2 * sa), ('height', hp, 2 * sb)):
+            local(f'{label} {nm}', got, ang_size)
             exp = float(ang_size.to_value(u.deg)) / ps
             obs.check(abs(got / exp - 1) <= tol, 'length-not-angular-size-over-scale', f'{name} {label} {nm}: pixel length {got!r} but angular size / pixel scale = {exp!r}',
                       'length-vs-scale')
